@@ -44,6 +44,11 @@ def leaf(variant: dict, kernel_name: str | None = None) -> str:
 def mid(name_of_leaf: str, variant: dict, tag: str = 'm') -> str:
 	wrap = variant.get('wrap', 'plain')
 	lines = ['from collections.abc import Callable', f'from {name_of_leaf} import Item, Tone, base_val, make_item, SEED', '', '']
+	# the first definition sits at the same tree position in every mid module: a type-parameterised function in one, a plain one in the others
+	if tag == 'a':
+		lines += [f'def {tag}_first[T](v: T) -> T:', '\treturn v', '', '']
+	else:
+		lines += [f'def {tag}_first(v: int) -> int:', '\treturn v', '', '']
 	lines += [f'def {tag}_seed() -> int:', '\tseed = SEED', '\tseeds = [SEED, seed]', '\treturn len(seeds)', '', '']
 	# the only dict type of the project (a user template may request an include for it): root has none
 	lines += [f'def {tag}_table() -> int:', "\ttable: dict[str, int] = {'k': 1}", '\treturn len(table)', '', '']
